@@ -66,6 +66,7 @@ Definition raw_ok (k : case) : bool :=
 Definition mismatch (k : case) : bool :=
   let c := cfg_of k in
   negb (geometry_ok c (k_blob k)) ||
+  (N.eqb (k_mode k) 0 && negb (hist_ok c (start (init_fresh c) (k_ws k)) (map fst (k_steps k)))) ||
   (N.eqb (k_mode k) 0 &&
    negb (model_agrees k) &&
    (* outside the PieceReader contract (Length() understates the stream) the model transcribes
